@@ -7,7 +7,7 @@ history, projected with the same sub-path rule and compared (closed sub-paths up
 their cyclic edge list)."""
 from copy import copy
 from . import engine
-from .pathutil import pt, close
+from .pathutil import pt, close, arc_point
 
 svg = None
 MATS = {1: (-1, 0, 0, 1, 0, 0), 2: (0, 1, -1, 0, 0, 0), 3: (2, 0, 0, 2, 1, -3)}
@@ -37,6 +37,31 @@ def build(p0):
     if len(segs) == 1:
         return svg.Path(segs[0])
     return svg.Path(*segs)
+
+
+def build_parsed(p0):
+    """The same path from path data written with relative commands (the segments then carry relative=True, which d() honours)."""
+    out, cur, zp = [], (0, 0), (0, 0)
+
+    def rel(q):
+        return "%d,%d" % (q[0] - cur[0], q[1] - cur[1])
+    for k, s, c1, c2, e in p0:
+        if k == "M":
+            out.append("m " + rel(e))
+            zp = tuple(e)
+        elif k == "L":
+            out.append("l " + rel(e))
+        elif k == "Z":
+            out.append("z")
+            e = zp
+        elif k == "Q":
+            out.append("q %s %s" % (rel(c1), rel(e)))
+        elif k == "C":
+            out.append("c %s %s %s" % (rel(c1), rel(c2), rel(e)))
+        elif k == "A":
+            out.append("a %d,%d %d %d %d %s" % (c1[0], c1[1], c1[2], c2[0], c2[1], rel(e)))
+        cur = tuple(e)
+    return svg.Path(" ".join(out))
 
 
 def geometry(path):
@@ -90,6 +115,11 @@ def edge_eq(real, exp):
             a, b = real.point(t), ref.point(t)
             if not (close(a.x, b.x, 1e-7) and close(a.y, b.y, 1e-7)):
                 return "arc point(%s) = %s, expected %s (arc %s)" % (t, a, b, exp)
+            # and against the SVG end-point parameterisation written out in the harness (not through the library's Arc)
+            w = arc_point(exp[1][0], exp[1][1], exp[2][0], exp[2][1], exp[2][2], exp[3][0], exp[3][1], exp[4][0], exp[4][1], t)
+            size = max(1.0, abs(exp[2][0]), abs(exp[2][1]))
+            if abs(a.x - w[0]) > 1e-7 * size or abs(a.y - w[1]) > 1e-7 * size:
+                return "arc point(%s) = %s, the end-point parameterisation gives %s (arc %s)" % (t, a, w, exp)
     return None
 
 
@@ -144,14 +174,50 @@ def shape_class(word):
     return "wellformed"
 
 
+def windows(w):
+    wins, st = [], 0
+    for i, c in enumerate(w):
+        if c == "M" and i != st:
+            wins.append((st, i - 1))
+            st = i
+        if c == "Z":
+            wins.append((st, i))
+            st = i + 1
+    if st < len(w):
+        wins.append((st, len(w) - 1))
+    return wins
+
+
+def reach(word, hist):
+    """Does the history run the code the two recorded findings are about?  Path.reverse() of a path that has a sub-path
+    without its own move (a leading fragment, or one that begins right after a close), or a view reversal of a sub-path
+    that begins right after a close / of the closed sub-path just before one.  A view reversal of a leading fragment
+    ('L', 'LQ M..' subpath(0).reverse()) works on the pinned tree and is NOT covered by the findings."""
+    w = "".join(word)
+    wins = windows(w)
+    moveless = [a > 0 and w[a] != "M" for a, b in wins]
+    for op, arg in hist:
+        if op == "rev":
+            if not w.startswith("M") or any(moveless):
+                return "moveless_window"
+        elif op == "revsub":
+            k = arg - 1
+            if k < len(wins) and (moveless[k] or (k + 1 < len(wins) and moveless[k + 1])):
+                return "moveless_window"
+    return "none"
+
+
 def check_case(case):
     p0, hist, geo, word = case["p0"], case["hist"], case["geo"], case["word"]
     dis = []
-    for variant in ("lazy", "reify"):
-        if variant == "reify" and not any(h[0] == "mul" for h in hist):
+    variants = ["lazy", "reify"]
+    if word[0] == "M":
+        variants += ["parsed", "parsed_reify"]          # the same path parsed from relative path data
+    for variant in variants:
+        if variant.endswith("reify") and not any(h[0] == "mul" for h in hist):
             continue
         try:
-            p = build(p0)
+            p = build_parsed(p0) if variant.startswith("parsed") else build(p0)
             for op, arg in hist:
                 if op == "rev":
                     p.reverse()
@@ -159,7 +225,7 @@ def check_case(case):
                     p.subpath(arg - 1).reverse()
                 else:
                     p *= svg.Matrix(*MATS[arg])
-                    if variant == "reify":
+                    if variant.endswith("reify"):
                         p.reify()
             q = abs(p)
             real = geometry(q)
@@ -175,6 +241,7 @@ def check_case(case):
     ops = ">".join(h[0] for h in hist)
     for d in dis:
         d["shape_class"] = sc
+        d["reach"] = reach(word, hist)
         d["ops"] = ops
         d["detail"] = "%s after %s on %s [%s]" % (d["detail"], hist, "".join(word), sc)
     return {"dis": dis, "nontrivial": len(word) >= 2 and any(h[0] != "mul" for h in hist), "class": "".join(word) + ":" + ops,
